@@ -5172,6 +5172,21 @@ let abs_disk name_max maxfilesize sz quiescent d =
 let empty_disk =
   empty0 (gmap_empty n_eq_dec n_countable)
 
+(** val encode_inode : dinode -> bytes **)
+
+let encode_inode ip =
+  app (le (S (S (S (S O)))) ip.i_kind)
+    (app (le (S (S (S (S O)))) ip.i_nlink)
+      (app (le (S (S (S (S (S (S (S (S O)))))))) ip.i_gen)
+        (app (le (S (S (S (S (S (S (S (S O)))))))) ip.i_size)
+          (app (le (S (S (S (S (S (S (S (S O)))))))) ip.i_shrink)
+            (app (le (S (S (S (S O)))) (fst ip.i_atime))
+              (app (le (S (S (S (S O)))) (snd ip.i_atime))
+                (app (le (S (S (S (S O)))) (fst ip.i_mtime))
+                  (app (le (S (S (S (S O)))) (snd ip.i_mtime))
+                    (concat
+                      (map (le (S (S (S (S (S (S (S (S O))))))))) ip.i_blks))))))))))
+
 type 'entry slot = 'entry option
 
 type 'entry dir = 'entry slot list
@@ -5541,7 +5556,8 @@ let nospace_plausible c free_blocks free_inodes =
 (** val cached_inode_ok : n -> disk -> n -> bytes -> bool **)
 
 let cached_inode_ok sz d i enc =
-  bytes_eqb enc (inode_bytes (mk_layout sz) d i)
+  (&&) (bytes_eqb enc (inode_bytes (mk_layout sz) d i))
+    (bytes_eqb (encode_inode (decode_inode enc)) enc)
 
 (** val dir_slot_list : n -> disk -> n -> ((name * n) * n) list **)
 
